@@ -12,7 +12,7 @@ TRUSTED = [
     "hand-written model of internal/core/adt/decimal.go (numOp, intDivOp), binop.go (cmpTonode, number/string/bytes comparison dispatch), internal/internal.go (BaseContext precision 34, reduceKeepingFloats), cue/literal/num.go (ParseNum, decimal, multipliers), math/big Div/Mod/Quo/Rem",
     "extraction (ExtrOcamlBasic only; N/Z/positive kept as Coq datatypes; no Extract Constant), OCaml driver ocaml/c06_driver.ml (hex <-> positive, case parsing)",
     "Go harness harness/c06 (generators; rendering of operands as CUE literals; projection of cue.Value to kind/sign/coefficient/exponent through adt.Num cross-checked with Value.MantExp)",
-    "apd exponent limits (|adjusted exponent| > 100000) are modelled for literals only; arithmetic operands stay inside |exp| <= 2000, <= 600 digits",
+    "apd exponent limits (|adjusted exponent| > 100000) are modelled for literals only; arithmetic operands stay inside |exp| <= 2000 (quick: 300), <= 600 digits (quick: 300)",
 ]
 
 F1 = ("F1 int/decimal + - * rounded to 34 significant digits (internal.BaseContext precision in adt/decimal.go numOp): "
@@ -160,10 +160,12 @@ def run(ctx):
             f.write(rp.get("case", "") + "\n")
         args += ["--replay-cases", cf]
     elif quick:
+        # exponents beyond +-300 make the extracted model slow (10^2000 in unary-recursive N arithmetic);
+        # the thorough tier goes to +-2000
         args += ["--tier", "quick", "--n", "9000", "--nlit", "5000", "--nstr", "600", "--maxdigits", "300",
-                 "--maxexp", "2000", "--corpus", corpus]
+                 "--maxexp", "300", "--corpus", corpus]
     else:
-        args += ["--tier", "thorough", "--n", "400000", "--nlit", "150000", "--nstr", "10000", "--maxdigits", "600",
+        args += ["--tier", "thorough", "--n", "200000", "--nlit", "80000", "--nstr", "10000", "--maxdigits", "600",
                  "--maxexp", "2000", "--corpus", corpus]
     t0 = time.time()
     vlib.run(args, timeout=3000)
@@ -274,7 +276,7 @@ def run(ctx):
         "audit_files": proof["audit_files"],
         "evaluations": len(cases),
         "distinct_nontrivial": nontrivial,
-        "rule": "cases: E = CUE expressions over number literals (+ - * / unary -, the six comparisons, div mod quo rem; exhaustive small ints/floats, boundaries 2^63 2^64 10^33..10^36 +-1, random operands up to --maxdigits digits and exponents +-2000, constructed rounding ties at digit 35, nested expressions of depth 2-3); L = byte strings given to literal.ParseNum (every string over a small alphabet up to length 3-5, mutated valid literals, signed literals, random bytes); LV = grammar-directed valid literals (all bases, '_', K..P / Ki..Pi, fractions, exponents incl. the apd limit) also compiled through cue.Context; S = string / bytes comparisons. non-trivial: E not an error and some operand >= 2 digits; L/LV accepted literal of >= 3 bytes; S different operands; counted over distinct case lines",
+        "rule": "cases: E = CUE expressions over number literals (+ - * / unary -, the six comparisons, div mod quo rem; exhaustive small ints/floats, boundaries 2^63 2^64 10^33..10^36 +-1, random operands up to 300 (thorough 600) digits and exponents up to +-300 (thorough +-2000), constructed rounding ties at digit 35, nested expressions of depth 2-3); L = byte strings given to literal.ParseNum (every string over a small alphabet up to length 3-5, mutated valid literals, signed literals, random bytes); LV = grammar-directed valid literals (all bases, '_', K..P / Ki..Pi, fractions, exponents incl. the apd limit) also compiled through cue.Context; S = string / bytes comparisons. non-trivial: E not an error and some operand >= 2 digits; L/LV accepted literal of >= 3 bytes; S different operands; counted over distinct case lines",
         "samples": samples,
         "case_kinds": kinds,
         "outcomes_by_kind": outcome,
